@@ -60,7 +60,7 @@ add("c03-endsynced-starts", "C03", "task_constraint.py",
 add("c03-contiguous-le", "C03", "task_constraint.py",
     "            asst = sorted_starts[i] == sorted_ends[i - 1]\n            #  another set of conditions, related to the time periods",
     "            asst = sorted_starts[i] >= sorted_ends[i - 1]\n            #  another set of conditions, related to the time periods")
-add("c03-group-bounds-swapped", "C03", "task_constraint.py",
+add("c03-group-bounds-swapped", "C05", "task_constraint.py",
     "                self._start >= self.time_interval[0],\n                self._end <= self.time_interval[1],",
     "                self._start >= self.time_interval[1],\n                self._end <= self.time_interval[0],")
 add("c03-schedulen-min-ple", "C03", "task_constraint.py",
